@@ -6,10 +6,11 @@ import NmVerif.NN.Views
       input  --reshape(conv_reshape_input)--[pad(conv_pad)]--------------------------------sliding_window--+--multiply
         --sum(conv_sum_axes)--reshape(conv_reshape_reduce)--[add reshape(bias, conv_reshape_bias)]--[slice(conv_slices)]
 
-  State of the code mirrored here: /repo with fixes/C17-conv-batch.diff, C17-conv-groups.diff and
-  C17-conv2d-dilation-pair.diff applied — the input is reshaped to `(N, g, 1, C/g, spatial…)`, the weight to
-  `(g, O/g, C/g, kernel…)` (output channel `o` belongs to group `o / (O/g)`), and spacing `i` of a dilation pair is
-  `dilation[n_planes-1-i] - 1` because it is applied to window axis `-(i+1)`.
+  State of the code mirrored here: /repo with the `fix:` commits for the batch extent (`conv_reshape_input` keeps it:
+  the input is reshaped to `(N, 1, g, C/g, spatial…)`) and for the dilation pair (spacing `i` is
+  `dilation[n_planes-1-i] - 1`, applied to window axis `-(i+1)`).  Still as the code has it, not as PyTorch: the weight
+  is reshaped to `(O/g, g, C/g, kernel…)`, so the group of output channel `o` is `o % groups` (known finding
+  conv.groups-interleaved).
 -/
 namespace NmVerif.NN
 
@@ -31,19 +32,19 @@ inductive Res (α : Type) where
 def convReshapeInput (src : Shape) (groups nPlanes : Nat) : Shape :=
   let r := List.replicate (src.length + 2) 1
   let chAx : Int := -(nPlanes : Int) - 1
-  let grpAx : Int := -(nPlanes : Int) - 3
+  let grpAx : Int := -(nPlanes : Int) - 2
   let r := setI r grpAx groups
-  let r := setI r (grpAx + 2) (getI src chAx / groups)
+  let r := setI r (grpAx + 1) (getI src chAx / groups)
   let r := (List.range nPlanes).foldl (fun r (i : Nat) => setI r (-((i : Int) + 1)) (getI src (-((i : Int) + 1)))) r
-  -- the batch extent of a (N, C, spatial…) input is kept
+  -- the batch extent of a (N, C, spatial…) input is kept (fix: conv_reshape_input keeps the batch extent)
   if src.length > nPlanes + 1 then setI r 0 (getI src 0) else r
 
 def convReshapeWeight (src : Shape) (groups nPlanes : Nat) : Shape :=
   let r := List.replicate (src.length + 1) 1
   let r := (List.range (src.length - (nPlanes - 1))).foldl (fun r (i : Nat) => setI r (-((i : Int) + 1)) (getI src (-((i : Int) + 1)))) r
   let r := (List.range (nPlanes - 1)).foldl (fun r (i : Nat) => setI r (i : Int) (getI src (i : Int))) r
-  let r := setI r 1 (getI src 0 / groups)
-  setI r 0 groups
+  let r := setI r 1 groups
+  setI r 0 (getI src 0 / groups)
 
 def convReshapeReduce (src : Shape) (nPlanes : Nat) : Shape :=
   let r := List.replicate (src.length - 1) 0
